@@ -167,3 +167,118 @@ func (g *DenseGraph) BadCountEdgesNumeric() int {
 	}
 	return m
 }
+
+// DEGSYNC
+
+// BadDecodeDegrees records the edge (cur, b-1) but counts vertex b.
+func BadDecodeDegrees(s []byte) *DenseGraph {
+	n := int(s[0])
+	m := 0
+	degrees := make([]int, n)
+	edges := make([]byte, (n*(n-1))/2)
+	cur := 0
+	for i := 1; i < len(s); i++ {
+		if s[i] == 0 {
+			cur++
+		} else {
+			edges[(int(s[i]-1)*int(s[i]-2))/2+cur] = 1
+			degrees[s[i]]++
+			degrees[cur]++
+			m++
+		}
+	}
+	return &DenseGraph{NumberOfVertices: n, NumberOfEdges: m, DegreeSequence: degrees, Edges: edges}
+}
+
+func GoodDecodeDegrees(s []byte) *DenseGraph {
+	n := int(s[0])
+	m := 0
+	degrees := make([]int, n)
+	edges := make([]byte, (n*(n-1))/2)
+	cur := 0
+	for i := 1; i < len(s); i++ {
+		if s[i] == 0 {
+			cur++
+		} else {
+			edges[(int(s[i]-1)*int(s[i]-2))/2+cur] = 1
+			degrees[s[i]-1]++
+			degrees[cur]++
+			m++
+		}
+	}
+	return &DenseGraph{NumberOfVertices: n, NumberOfEdges: m, DegreeSequence: degrees, Edges: edges}
+}
+
+func GoodCountDegrees(n int, pred func(i, j int) bool) *DenseGraph {
+	m := 0
+	degrees := make([]int, n)
+	edges := make([]byte, (n*(n-1))/2)
+	index := 0
+	for j := 1; j < n; j++ {
+		for i := 0; i < j; i++ {
+			if pred(i, j) {
+				edges[index] = 1
+				m++
+				degrees[i]++
+				degrees[j]++
+			}
+			index++
+		}
+	}
+	return &DenseGraph{NumberOfVertices: n, NumberOfEdges: m, DegreeSequence: degrees, Edges: edges}
+}
+
+// COUNTS
+
+// BadPathCounts: M = -1 for n = 0 and the single vertex of n = 1 gets degree 1.
+func BadPathCounts(n int) *DenseGraph {
+	edges := make([]byte, (n*(n-1))/2)
+	for i := 0; i < n-1; i++ {
+		edges[((i+1)*i)/2+i] = 1
+	}
+	degrees := make([]int, n)
+	if n > 0 {
+		degrees[0] = 1
+		degrees[n-1] = 1
+		for i := 1; i < n-1; i++ {
+			degrees[i] = 2
+		}
+	}
+	return &DenseGraph{NumberOfVertices: n, NumberOfEdges: n - 1, DegreeSequence: degrees, Edges: edges}
+}
+
+func GoodPathCounts(n int) *DenseGraph {
+	if n < 2 {
+		return NewDense(n, nil)
+	}
+	edges := make([]byte, (n*(n-1))/2)
+	for i := 0; i < n-1; i++ {
+		edges[((i+1)*i)/2+i] = 1
+	}
+	degrees := make([]int, n)
+	degrees[0] = 1
+	degrees[n-1] = 1
+	for i := 1; i < n-1; i++ {
+		degrees[i] = 2
+	}
+	return &DenseGraph{NumberOfVertices: n, NumberOfEdges: n - 1, DegreeSequence: degrees, Edges: edges}
+}
+
+// IRREFLEXIVE
+
+func (g DenseGraph) IsEdge(i, j int) bool {
+	if i < j {
+		return g.Edges[(j*(j-1))/2+i] > 0
+	} else if i > j {
+		return g.Edges[(i*(i-1))/2+j] > 0
+	}
+	return false
+}
+
+type badComplement struct{ g *DenseGraph }
+
+func (c badComplement) IsEdge(i, j int) bool { return !c.g.IsEdge(i, j) }
+
+type goodComplement struct{ g *DenseGraph }
+
+func (c goodComplement) IsEdge(i, j int) bool { return i != j && !c.g.IsEdge(i, j) }
